@@ -19,7 +19,8 @@ TRANSLATORS = ["cinter.py", "objfixes.py"]
 ASSUMPTIONS = [
     "the C++ members behave as ObjModel.cpp_step says (C20's model, tied by C20's own check); accessors, searchcenters, ndsplineeval, ndsplineeval_deriv, get_aux_value, read_key do not throw (by reading; every call of this run tests it)",
     "tools/translators/cinter.py transcribes the glue shape of every extern \"C\" function correctly (fails closed on any unrecognised statement; the transcription is exercised by the model-vs-implementation comparison of this run)",
-    "the C++ objects' OWN allocations are balanced when every object is destroyed: C20_balanced is not proved (NOTES_C20.md) — tested here by LeakSanitizer at the end of every sequence",
+    "C18_balanced / C18_memory_safe compose with C20's global invariant (C20_step_preserves) and are therefore about cfg_fixed and about call sequences whose C++ twins satisfy C20's side conditions wf_op (files that pass the dimension check have ndim >= 1 and ndim naxes entries, a fit that passes the sanity checks has >= 1 dimension, a key's byte count is a function of the key); C20_tree_is_fixed ties cfg_fixed to the tree. LeakSanitizer at the end of every sequence stays as the runtime cross-check",
+    "memory safety of the value-returning wrappers (accessors, tablesearchcenters, ndsplineeval*, and grideval on an empty table) is proved under their documented precondition doc_pre (the handle holds a populated table): they have no way to report a failure (known finding C18:accessors:null-handle-deref)",
     "the C caller passes handles whose data member is NULL or came from this interface, result variables and buffer structs that are empty, and arrays of the documented lengths (valid_call)",
 ]
 TRUSTED_EXTRA = ["harness/C18_harness.cpp (C call beside C++ twin; dumps; LSan recoverable check per sequence)",
